@@ -27,7 +27,7 @@ func init() {
 		Title: "Rest.li queries are never handed to the form-encoding parsers of net/url",
 		Text: "In the runtime packages (restli, restlicodec) no call of url.ParseQuery, (*url.URL).Query, url.Values.Encode / Get / Set, (*http.Request).ParseForm / FormValue / PostFormValue / ParseMultipartForm: " +
 			"a Rest.li query is ROR2 text whose only reserved bytes are those of the query escaper; the form parsers reject or rewrite bytes that are legal in it (`;`, `+`), so a request that is fine untunnelled fails (or changes) when it is validated or rebuilt through them.",
-		Props: []string{"C02", "C14", "C15"},
+		Props: []string{"C02", "C14", "C15", "C01"},
 		Floor: map[string]int{"v2": 1, "root": 1},
 		Run:   runR026,
 	})
@@ -131,7 +131,7 @@ func runR134(c *core.Ctx) {
 			}
 			hasDecoder := false
 			for i := 0; i < nn.NumMethods(); i++ {
-				if nn.Method(i).Name() == "UnmarshalRestLi" {
+				if core.NameOf(nn.Method(i)) == "UnmarshalRestLi" {
 					hasDecoder = true
 				}
 			}
@@ -156,7 +156,7 @@ func runR134(c *core.Ctx) {
 				})
 			}
 			c.Check(filled, g.Rel, g.Name, "default of the record-typed field "+sel.Sel.Name+" is decoded into the new instance", as.Pos(), "",
-				"the field is set to a bare "+core.ExprString(as.Rhs[0])+": the defaults declared by "+nn.Obj().Name()+" itself are missing from the default value")
+				"the field is set to a bare "+core.ExprString(as.Rhs[0])+": the defaults declared by "+core.NameOf(nn.Obj())+" itself are missing from the default value")
 			return true
 		})
 	}
@@ -249,8 +249,8 @@ func runR129(c *core.Ctx) {
 						}
 					}
 				}
-				c.Check(len(missing) == 0, rel, core.DeclName(fd), "memo "+m.Name()+" is keyed by every parameter the result depends on", fd.Pos(), "",
-					"the value stored in "+m.Name()+" also depends on "+strings.Join(missing, ", ")+", which is not part of the key: a later call with a different value is served the stale entry")
+				c.Check(len(missing) == 0, rel, core.DeclName(fd), "memo "+core.NameOf(m)+" is keyed by every parameter the result depends on", fd.Pos(), "",
+					"the value stored in "+core.NameOf(m)+" also depends on "+strings.Join(missing, ", ")+", which is not part of the key: a later call with a different value is served the stale entry")
 			}
 		}
 	}
@@ -265,7 +265,7 @@ func runR108(c *core.Ctx) {
 	}
 	isHash := func(t types.Type) bool {
 		nn := namedOf(t)
-		return nn != nil && nn.Obj().Name() == "Hash" && nn.Obj().Pkg() != nil && strings.HasSuffix(nn.Obj().Pkg().Path(), "/fnv1a")
+		return nn != nil && core.NameOf(nn.Obj()) == "Hash" && nn.Obj().Pkg() != nil && strings.HasSuffix(nn.Obj().Pkg().Path(), "/fnv1a")
 	}
 	n := 0
 	for _, p := range c.M.Roots {
@@ -332,7 +332,7 @@ func runR1710(c *core.Ctx) {
 		maps := map[types.Object]bool{}
 		for _, name := range p.Types.Scope().Names() {
 			if v, ok := p.Types.Scope().Lookup(name).(*types.Var); ok {
-				if nn := namedOf(v.Type()); nn != nil && nn.Obj().Pkg() != nil && nn.Obj().Pkg().Path() == "sync" && nn.Obj().Name() == "Map" {
+				if nn := namedOf(v.Type()); nn != nil && nn.Obj().Pkg() != nil && nn.Obj().Pkg().Path() == "sync" && core.NameOf(nn.Obj()) == "Map" {
 					maps[v] = true
 				}
 			}
@@ -364,8 +364,8 @@ func runR1710(c *core.Ctx) {
 					continue
 				}
 				n++
-				c.Check(len(reads) == 0 || len(writes) == 0, rel, core.DeclName(fd), "use of the shared map "+m.Name()+" is a single atomic step", fd.Pos(), "",
-					fmt.Sprintf("%s then %s on %s in one function: between the two another goroutine can register the same key, and the later Store replaces it unnoticed", strings.Join(reads, "/"), strings.Join(writes, "/"), m.Name()))
+				c.Check(len(reads) == 0 || len(writes) == 0, rel, core.DeclName(fd), "use of the shared map "+core.NameOf(m)+" is a single atomic step", fd.Pos(), "",
+					fmt.Sprintf("%s then %s on %s in one function: between the two another goroutine can register the same key, and the later Store replaces it unnoticed", strings.Join(reads, "/"), strings.Join(writes, "/"), core.NameOf(m)))
 			}
 		}
 	}
@@ -637,7 +637,7 @@ func runR049(c *core.Ctx) {
 			}
 		}
 		if convs == 0 || !okAll {
-			return false, fmt.Sprintf("not every conversion to %s follows a successful %s of the converted value", nn.Obj().Name(), core.NameOf(v))
+			return false, fmt.Sprintf("not every conversion to %s follows a successful %s of the converted value", core.NameOf(nn.Obj()), core.NameOf(v))
 		}
 		return true, ""
 	}
@@ -687,21 +687,21 @@ func runR026(c *core.Ctx) {
 				case "net/url":
 					rn := ""
 					if r := core.RecvNamed(f); r != nil {
-						rn = r.Obj().Name()
+						rn = core.NameOf(r.Obj())
 					}
 					switch {
-					case f.Name() == "ParseQuery":
+					case core.NameOf(f) == "ParseQuery":
 						bad = "url.ParseQuery"
-					case rn == "URL" && f.Name() == "Query":
+					case rn == "URL" && core.NameOf(f) == "Query":
 						bad = "(*url.URL).Query"
 					case rn == "Values":
-						bad = "url.Values." + f.Name()
+						bad = "url.Values." + core.NameOf(f)
 					}
 				case "net/http":
-					if r := core.RecvNamed(f); r != nil && r.Obj().Name() == "Request" {
-						switch f.Name() {
+					if r := core.RecvNamed(f); r != nil && core.NameOf(r.Obj()) == "Request" {
+						switch core.NameOf(f) {
 						case "ParseForm", "FormValue", "PostFormValue", "ParseMultipartForm", "FormFile":
-							bad = "(*http.Request)." + f.Name()
+							bad = "(*http.Request)." + core.NameOf(f)
 						}
 					}
 				}
@@ -773,7 +773,7 @@ func runR019(c *core.Ctx) {
 		if !ok {
 			return false
 		}
-		if fv, ok := core.ObjOf(inf, call.Fun).(*types.Var); ok && fv.IsField() && strings.Contains(strings.ToLower(fv.Name()), "decode") {
+		if fv, ok := core.ObjOf(inf, call.Fun).(*types.Var); ok && fv.IsField() && strings.Contains(strings.ToLower(core.NameOf(fv)), "decode") {
 			return true
 		}
 		f := core.Callee(inf, call)
@@ -783,7 +783,7 @@ func runR019(c *core.Ctx) {
 		if decoders[f.Origin()] {
 			return true
 		}
-		if f.Pkg() != nil && f.Pkg().Path() == "net/url" && strings.Contains(f.Name(), "Unescape") {
+		if f.Pkg() != nil && f.Pkg().Path() == "net/url" && strings.Contains(core.NameOf(f), "Unescape") {
 			return true
 		}
 		return false
